@@ -3,6 +3,8 @@ import itertools
 from .. import core
 from ..gen import Lib, compatible
 
+PROOF_MODULES = ['Resynth.Props.C11', 'Resynth.Props.C11Gen', 'Resynth.Props.C11Exec']
+
 RULE = ("every signature of the real library (functions and methods: every mix of mandatory, optional, nullable and variable-"
         "tail parameters) x all call shapes up to length 2 (quick) / 3 (thorough): each argument unnamed or named with the "
         "first/second/last declared name or an undeclared name, in any order with repeats, x a compatible, an incompatible and "
